@@ -44,7 +44,7 @@ STARTS = [(2019365, 220000), (2020059, 230000), (2019059, 233000), (2001001, 0),
 def _src(rng):
     kind = rng.choice(['arrays', 'arrays', 'arrays_bnd', 'arrays_extra', 'disk', 'griddesc', 'griddesc_bnd'])
     sd, st = rng.choice(STARTS)
-    return dict(kind=kind, nt=rng.randint(1, 4), nl=rng.randint(1, 3), nr=rng.randint(1, 3), nc=rng.randint(1, 3),
+    return dict(kind=kind, nt=rng.choice([1, 2, 3, 4, 4, 6]), nl=rng.randint(1, 3), nr=rng.randint(1, 3), nc=rng.randint(1, 3),
                 nv=rng.randint(1, 3), sdate=sd, stime=st, tstep=rng.choice([10000, 10000, 3000, 240000, 20000]),
                 lv=sorted(rng.sample(range(0, 65), 4), reverse=True), withcf=rng.random() < 0.3,
                 name16=rng.random() < 0.25)
@@ -52,7 +52,7 @@ def _src(rng):
 
 def _recipe(rng):
     k = rng.choice(['copy', 'slice', 'slice', 'slice2', 'subset', 'rename', 'apply', 'apply', 'eval', 'mask', 'stack',
-                    'interp', 'slicerc'])
+                    'interp', 'slicerc', 'slicet'])
     return [k] + [rng.randrange(1 << 20) for _ in range(6)]
 
 
@@ -174,7 +174,8 @@ def coherent(f):
     return bad
 
 
-FNS = {'id': lambda x: x, 'first2': lambda x: x[:2], 'rev': lambda x: x[::-1]}
+FNS = {'id': lambda x: x, 'first2': lambda x: x[:2], 'rev': lambda x: x[::-1], 'every2': lambda x: x[::2],
+       'ends': lambda x: x[[0, -1]]}
 
 
 def resolve(recipe, f):
@@ -212,6 +213,15 @@ def resolve(recipe, f):
         return ['s', lo, hi]
     if k == 'copy':
         return ['copy']
+    if k == 'slicet':
+        # index lists along TSTEP: unevenly spaced, increasing (the selected TFLAG rows are kept, not regenerated)
+        L = dims.get('TSTEP', 0)
+        if L < 3:
+            return ['copy']
+        idx = sorted({r[0] % L, r[1] % L, r[2] % L, (r[0] + 1) % L})
+        if len(idx) < 2:
+            idx = [0, L - 1]
+        return ['slice', [['TSTEP', ['l', idx]]]]
     if k == 'slicerc':
         # one index list next to an integer, a one-cell window or a second integer on the two horizontal axes:
         # still a window of the grid (only two lists select points)
@@ -245,7 +255,7 @@ def resolve(recipe, f):
         return ['rename', o, [('R' + o)[:16], 'RENAMED', 'Y' * 17, 'R234567890123456'][r[1] % 4]]    # names stay valid identifiers (eval)
     if k == 'apply':
         ds = sorted(dims)
-        return ['apply', ds[r[0] % len(ds)], ['mean', 'min', 'max', 'sum', 'id', 'first2', 'rev'][r[1] % 7]]
+        return ['apply', ds[r[0] % len(ds)], ['mean', 'min', 'max', 'sum', 'id', 'first2', 'rev', 'every2', 'ends'][r[1] % 9]]
     if k == 'eval':
         if not data:
             return ['copy']
